@@ -285,7 +285,7 @@ func c12Mismatch(t *mon.T, d c12Desc, s *c12Session, r *gen.RandT, roots []cid.C
 
 func genC12(g *mon.G) {
 	r := gen.Rand(g.Seed)
-	cfgs := []lab.Cfg{{}, {DataPad: 9, IndexPad: 3}, {V1: true}, {StoreID: true, Sorted: true}, {WholeCID: true, AllowDup: true}, {DataPad: 1413, StoreID: true, WholeCID: true}}
+	cfgs := []lab.Cfg{{}, {DataPad: 9, IndexPad: 3}, {V1: true}, {StoreID: true, Sorted: true}, {WholeCID: true, AllowDup: true}, {DataPad: 1413, StoreID: true, WholeCID: true}, {V1: true, DataPad: 300}}
 	if g.Thorough() {
 		cfgs = append(cfgs, lab.Cfg{V1: true, StoreID: true}, lab.Cfg{IndexPad: 1024, Sorted: true}, lab.Cfg{V1: true, AllowDup: true, WholeCID: true}, lab.Cfg{DataPad: 1, ZeroEOF: true})
 	}
